@@ -272,7 +272,7 @@ class World(object):
                     return _orig(*a, **k)
                 sc.run = counted
                 patch_scenario_with_autoretry(sc, max_attempts=o["autoretry"])
-        if o.get("continue_after_failed_step"):
+        if o.get("continue_after_failed_step") and o.get("continue_after_failed_step") != "in-hook":
             for e in self.scenario_elems():
                 e.obj.continue_after_failed_step = True
 
@@ -463,6 +463,9 @@ class World(object):
                     owner = None
                 if w.opts.get("hook_probe"):
                     w.opts["hook_probe"](w, name, context, args)
+                if name == "before_scenario" and w.opts.get("continue_after_failed_step") == "in-hook":
+                    # the documented per-scenario recipe: the flag is switched on by the before_scenario hook
+                    context.scenario.continue_after_failed_step = True
                 if name == "before_scenario" and w.opts.get("hook_skip_scenario"):
                     # a before_scenario hook that excludes its own scenario at run time (the n-th one, n symbolic)
                     n_ = w._bs_seen = getattr(w, "_bs_seen", -1) + 1
